@@ -10,5 +10,5 @@ CONSTANTS
   MaxLosses = 1
   AsBuilt = FALSE
 VIEW EdgeView
-INVARIANT EmitQuiet
+INVARIANT EmitAll
 CHECK_DEADLOCK FALSE
